@@ -98,7 +98,9 @@ class C13:
             'other text, None, NumPy scalar, list, tuple, column of each type) x 4 row orders (natural, reversed, '
             'random selection, sorted by a key column), cells drawn from small ints and dyadic fractions (so that '
             '+ - * // % are exact, / and ** often), NaN, text and None cells for Mixed/Float assignment; plus random '
-            'cases, wrong-length and ill-typed operands (model only), and col @ f / map_(f, col) for 12 functions. '
+            'cases (incl. list-indexed column slices and derived, unattached columns), wrong-length and ill-typed operands '
+            '(model only), col @ f / map_(f, col) for 12 functions, and SeriesColumn o scalar / per-row / per-sample / '
+            'full-matrix / Float-/IntColumn operands in both orders. '
             'Observed: result type, row ids, cells; operands before/after; the cells read row-wise after dm.r = result. '
             'A case whose specified result is not computed exactly by the dyadic instance (non-dyadic quotient, '
             'non-integer exponent, zero divisor, infinities) is not judged and is counted as having left the model. '
@@ -176,12 +178,17 @@ class C13:
             old = np.seterr(all='ignore')
             try:
                 if inp.get('mode') == 'map':
-                    return self._rerun_map(inp)
-                if inp.get('mode') == 'series':
-                    return self._rerun_series(inp)
-                return self._rerun_op(inp)
+                    c = self._rerun_map(inp)
+                elif inp.get('mode') == 'series':
+                    c = self._rerun_series(inp)
+                else:
+                    c = self._rerun_op(inp)
             finally:
                 np.seterr(**old)
+            if c is not None:
+                # [oracle; every row of the case is judged (the exact instance computes all of it)]
+                c['oracle_vec'] = '[%s; %s]' % (c['oracle'], c.get('aux') or 'true')
+            return c
 
     def _rerun_op(self, inp):
         from datamatrix._datamatrix._basecolumn import BaseColumn
@@ -466,7 +473,7 @@ class C13:
             after = list(x)
         else:
             after = [v for row in x for v in row]
-        if [numlit(v) for v in after] != [numlit(v) for v in snap]:
+        if [L.fl(float(v)) for v in after] != [L.fl(float(v)) for v in snap]:
             pyfail = pyfail or 'the other operand was changed by the operation'
         args = 'O%s %s %s %s' % (op, L.boolean(refl), c_lit, o_lit)
         return {
